@@ -56,9 +56,7 @@ Definition of_cmp (o : outcome bool) (neg : bool) : sres status :=
   match o with
   | Done b => SOk (if xorb b neg then PASS else FAIL)
   | Err ENotComparable => SOk FAIL          (* incomparable: FAIL, also under negation *)
-  | Err ERegex => SOut                      (* a regular expression that fails at run time: not a documented case *)
-  | Err _ => SUndef
-  | _ => SOut
+  | _ => SOut                               (* a regular expression that fails at run time: not a documented case *)
   end.
 
 Definition str_in (l r : pv) : option bool :=
@@ -74,9 +72,7 @@ Definition all_in (xs ys : list pv) : sres bool :=
      | x :: r =>
          match contains_pv re ys x with
          | Done c => b <~ go r ;; SOk (c && b)
-         | Err ENotComparable => SOk false
-         | Err _ => SUndef
-         | _ => SOut
+         | _ => SOut                   (* membership uses ==, which always answers *)
          end
      end) xs.
 Definition none_in (xs ys : list pv) : sres bool :=
@@ -86,9 +82,7 @@ Definition none_in (xs ys : list pv) : sres bool :=
      | x :: r =>
          match contains_pv re ys x with
          | Done c => b <~ go r ;; SOk (negb c && b)
-         | Err ENotComparable => SOk false
-         | Err _ => SUndef
-         | _ => SOut
+         | _ => SOut                   (* membership uses ==, which always answers *)
          end
      end) xs.
 
@@ -100,8 +94,6 @@ Definition value_in (neg : bool) (l r : pv) : sres status :=
       if (match rhsl with x :: _ => is_list x | [] => false end) then
         match contains_pv re rhsl l with
         | Done c => SOk (if xorb c neg then PASS else FAIL)
-        | Err ENotComparable => SOk FAIL
-        | Err _ => SUndef
         | _ => SOut
         end
       else if neg then
@@ -113,8 +105,6 @@ Definition value_in (neg : bool) (l r : pv) : sres status :=
   | _, PList _ rhsl =>
       match contains_pv re rhsl l with
       | Done c => SOk (if xorb c neg then PASS else FAIL)
-      | Err ENotComparable => SOk FAIL
-      | Err _ => SUndef
       | _ => SOut
       end
   | _, _ => of_cmp (compare_eq re l r) neg
